@@ -410,7 +410,7 @@ def execute(case, se, out, trace):
             # inf/nan are then outside "real numeric coordinates" by the input's doing
             out.count("skip:usable-literal-extreme")
             return
-        raise V("usable", ["coordinate-nonfinite", cmd, outcome], "parse(%r) retained a segment with an infinite or NaN coordinate although every number in the data is a moderate finite double (1e-150 < |v| < 1e150): %s" % (_short(s), [ob.seg_points(x) for x in segs if not all(ob.finite(v) for pnt in ob.seg_points(x) if isinstance(pnt, tuple) for v in pnt)][:1]))
+        raise V("usable", ["coordinate-nonfinite", cmd, outcome], "parse(%r) retained a segment with an infinite or NaN coordinate although no number in the data exceeds 1e150 in magnitude: %s" % (_short(s), [ob.seg_points(x) for x in segs if not all(ob.finite(v) for pnt in ob.seg_points(x) if isinstance(pnt, tuple) for v in pnt)][:1]))
     if long_input:
         follow = [("d", lambda: p.d()), ("bbox", lambda: p.bbox())]
     else:
@@ -450,9 +450,10 @@ def _literal_overflows(s):
             return True
         if v != v or v in (float("inf"), float("-inf")):
             return True
-        if abs(v) > 1e150 or (v != 0 and abs(v) < 1e-150):
+        if abs(v) > 1e150:
             # beyond the square root of what a double holds: sums, squares and reflections of such
-            # operands legitimately leave the range; only the exception type is judged for them
+            # operands legitimately leave the range; only the exception type is judged for them.
+            # (Tiny operands are not excused: what underflows is zero, not infinite.)
             return True
     return False
 
